@@ -259,9 +259,20 @@ def _zcmp(pred, x, y):
     return {'eq': lambda: x == y, 'ne': lambda: x != y, 'ugt': lambda: z3.UGT(x, y), 'uge': lambda: z3.UGE(x, y),
             'ult': lambda: z3.ULT(x, y), 'ule': lambda: z3.ULE(x, y), 'sgt': lambda: x > y, 'sge': lambda: x >= y,
             'slt': lambda: x < y, 'sle': lambda: x <= y}[pred]()
+def _same_gv(a, b):
+    if not (isinstance(a, GV) and isinstance(b, GV)) or len(a.alts) != len(b.alts): return False
+    for (g1, x), (g2, y) in zip(a.alts, b.alts):
+        if g1 is not g2 and not (not isinstance(g1, bool) and not isinstance(g2, bool) and _aid(g1) == _aid(g2)): return False
+        if isinstance(x, int) != isinstance(y, int): return False
+        if isinstance(x, int):
+            if x != y: return False
+        elif _aid(x) != _aid(y): return False
+    return True
 def icmp(pred, a, b, w):
     """returns a guard"""
     if isinstance(a, int) and isinstance(b, int): return _ccmp(pred, a, b, w)
+    if a is b or _same_gv(a, b):
+        return pred in ('eq', 'ule', 'uge', 'sle', 'sge')
     aa, bb = alts_of(a), alts_of(b)
     if len(aa) * len(bb) <= 4 * MAXALT:
         r = False
